@@ -20,7 +20,7 @@ func (g *Gen) NsNamePool() NsNames {
 	return NsNames{
 		// names that begin like a pseudonym of the replacement texts in use ("REDACTED_…", "anon_…", "_…")
 		DBs:   []string{"shop" + t, "shop" + t + "_archive", "Δβ" + u, "db-" + u, "anon_" + u, "REDACTED_" + t, "admin"},
-		Colls: []string{"orders" + t, "orders" + t + ".archive", "orders" + t + "_v2", "c" + u + "é漢", "anon_" + t, "_" + u + "x", "REDACTED_" + u, "system.views", "system.buckets." + u, "$cmd", "oplog.rs", "a." + t + ".b.c"},
+		Colls: []string{"orders" + t, "orders" + t + ".archive", "orders" + t + "_v2", "c" + u + "é漢", "anon_" + t, "_" + u + "x", "77" + g.digits(5), "20" + g.digits(2) + "." + g.digits(6), "arch" + t + ".2024", "REDACTED_" + u, "system.views", "system.buckets." + u, "$cmd", "oplog.rs", "a." + t + ".b.c"},
 	}
 }
 
